@@ -495,7 +495,7 @@ BUILTINS = {
     'zip': b_zip, 'next': b_next, 'type': b_type, 'abs': b_abs, 'round': b_round, 'print': b_print, 'sorted': b_sorted,
     'reversed': b_reversed, 'issubclass': b_issubclass, 'id': b_id, 'callable': b_callable, 'divmod': b_divmod, 'pow': b_pow,
     'iter': lambda it, x: Obj(None, {'items': it.iterate(x)}, tag='iter'),
-    'repr': lambda it, x: b_str(it, x), 'hex': lambda it, x: hex(x),
+    'repr': lambda it, x: b_str(it, x), 'hex': lambda it, x: hex(x), 'chr': lambda it, x: chr(x), 'ord': lambda it, x: ord(x),
     'setattr': lambda it, o, n, v: it.setattr(o, n, v),
 }
 TYPE_NAMES = ['int', 'float', 'bool', 'str', 'complex', 'list', 'tuple', 'dict', 'set', 'slice', 'object']
